@@ -118,10 +118,52 @@ Theorem dead_lock_recovers : forall t0 a cs pms k td t,
 Proof. exact holder_dead_recovers. Qed.
 Print Assumptions dead_lock_recovers.
 
+(* "While the holder is alive and its context not cancelled the heartbeat is refreshed every period": the loop of the
+   model, like heartBeat (lockfile.go:62-73), IGNORES the errors of its writes.  cs1: ANY iterations — any of their
+   operations failing (transient EIO / ENOSPC / EMFILE on open, write or Chtimes), any latencies; then fault-free
+   iterations c2 :: cs2 within the latency bound.  From the moment c2's file creation lands the lock is live again,
+   for as long as the hold lasts: faults lose signs of life, they never stop the writer.  (Partial for the same
+   reason as live_never_stale_partial: the latency bound is a fact about the machine.) *)
+Theorem live_again_after_faults_partial : forall t0 a cs1 c2 cs2 pms eps t1 t2 t3,
+  1 <= pms -> 0 <= eps -> acq_ok a -> Forall cyc_ok cs1 -> Forall cyc_ok (c2 :: cs2) ->
+  cycles_bound eps (pms * ms) (c2 :: cs2) ->
+  let tr := holder_trace t0 a (cs1 ++ c2 :: cs2) (pms * ms) in
+  end_start (first_start t0 a) cs1 (pms * ms) + c_open c2 <= t1 -> t1 < last_at tr t0 ->
+  t1 <= t2 -> t3 <= t1 + eps ->
+  is_stale_na tr t1 t2 t3 (pms * ms) = false.
+Proof. exact holder_live_again. Qed.
+Print Assumptions live_again_after_faults_partial.
+
+(* Death by cancellation of the holder's context, WITHOUT Unlock: the loop checks its context before every
+   iteration (lockfile.go:63) and ends; the trace is that of the iterations made (any number, any faults).  Once
+   everything it initiated has landed (td), the lock is reported stale from td + 2*period + 1ms on and recovers. *)
+Theorem cancelled_holder_becomes_stale : forall t0 a cs pms td t1 t2 t3,
+  1 <= pms -> acq_ok a -> Forall cyc_ok cs ->
+  let evs := holder_trace t0 a cs (pms * ms) in
+  (forall e, In e evs -> e_at e <= td) ->
+  td <= t1 -> t1 <= t2 -> td + (2 * pms + 1) * ms <= t3 ->
+  is_stale_na evs t1 t2 t3 (pms * ms) = true.
+Proof. exact holder_cancelled_becomes_stale. Qed.
+Print Assumptions cancelled_holder_becomes_stale.
+
+Theorem cancelled_holder_lock_recovers : forall t0 a cs pms td t,
+  1 <= pms -> acq_ok a -> Forall cyc_ok cs ->
+  let evs := holder_trace t0 a cs (pms * ms) in
+  (forall e, In e evs -> e_at e <= td) ->
+  td + (2 * pms + 1) * ms <= t ->
+  let st := state_at evs t in
+  run_op OpIsStale st t (pms * ms) = (st, OStale true) /\
+  run_op OpRelease st t (pms * ms) = (no_lock, OReleased) /\
+  (forall o t', run_op (OpTryLock o) no_lock t' (pms * ms) = (fresh_lock t', OAcquired)) /\
+  run_op (OpTryLock false) st t (pms * ms) = (st, OStaleLock) /\
+  run_op (OpTryLock true) st t (pms * ms) = (fresh_lock t, OAcquired).
+Proof. exact holder_cancelled_recovers. Qed.
+Print Assumptions cancelled_holder_lock_recovers.
+
 (* ---- non-vacuity: the hypotheses are satisfiable and the conclusions are not trivially true ---- *)
 
 Definition ex_acq := mkAcq (20000) (150000) (40000).                        (* 20 us, 150 us, 40 us *)
-Definition ex_cyc := mkCyc 200000 100000 100000 300000.                       (* 0.7 ms of latency per iteration *)
+Definition ex_cyc := mkCyc 200000 100000 100000 300000 FNone.                      (* 0.7 ms of latency per iteration *)
 Definition ex_cycles := repeat ex_cyc 40.                                     (* a hold of 40 periods *)
 
 Example ex_bounds : acq_ok ex_acq /\ Forall cyc_ok ex_cycles /\
@@ -143,6 +185,17 @@ Example ex_dead_stale : is_stale_na (dead_after 4 (holder_trace 0 ex_acq ex_cycl
 Proof. reflexivity. Qed.
 (* dead between Mkdir and everything else: judged by the directory's own time *)
 Example ex_dead_first : is_stale_na (dead_after 1 (holder_trace 0 ex_acq ex_cycles (50 * ms))) (101 * ms) (101 * ms) (101 * ms) (50 * ms) = true.
+Proof. reflexivity. Qed.
+(* one failed open (file already there: only the stamp lands), one failed write, one failed Chtimes, then the
+   loop is back to normal: live at 230 ms (it would be stale had the loop stopped at the first fault, see ex_stopped) *)
+Definition ex_faulty := [ex_cyc; mkCyc 200000 0 100000 300000 FOpen; mkCyc 200000 100000 100000 300000 FWrite;
+                         mkCyc 200000 100000 100000 300000 FChtimes; ex_cyc; ex_cyc].
+Example ex_live_again : is_stale_na (holder_trace 0 ex_acq ex_faulty (50 * ms)) (230 * ms) (230 * ms) (231 * ms) (50 * ms) = false.
+Proof. reflexivity. Qed.
+Example ex_stopped : is_stale_na (holder_trace 0 ex_acq [ex_cyc] (50 * ms)) (230 * ms) (230 * ms) (231 * ms) (50 * ms) = true.
+Proof. reflexivity. Qed.
+(* a first iteration whose open fails leaves no heartbeat file at all: the directory's time is consulted *)
+Example ex_first_open_fails : state_at (holder_trace 0 ex_acq [mkCyc 200000 0 100000 300000 FOpen] (50 * ms)) (40 * ms) = mkLock (Some 20000) [].
 Proof. reflexivity. Qed.
 (* boundary of the millisecond arithmetic: 100.999999 ms is not stale, 101 ms is *)
 Example ex_boundary : is_stale_time (Some 0) (101 * ms - 1) (50 * ms) = false /\ is_stale_time (Some 0) (101 * ms) (50 * ms) = true.
